@@ -6,7 +6,7 @@ import re
 VERIF = os.path.dirname(os.path.dirname(os.path.abspath(__file__)))
 
 
-ROUNDS = """Nine rounds of independent seeding (sub-agents in scratch worktrees of /repo; they see the twenty property texts, the list of
+ROUNDS = """Ten rounds of independent seeding (sub-agents in scratch worktrees of /repo; they see the twenty property texts, the list of
 earlier changes so that nothing is repeated, and nothing of /verif): `Cnn-A/B` and `Cnn-A2/B2` one agent per property (rounds 1, 2);
 `K01..K12` one agent per component (round 3); `S01..S10` per component with the instruction to damage what the recent `fix:` commits
 established without reverting them (round 4); `R01..R12` per property again, for the properties with the fewest changes so far
@@ -53,6 +53,15 @@ all three in the etcd watch server with SEVERAL watches on one stream) -> racete
 stream (a new watch never gets the id of a live one, events arrive under the id of their own watch, one `canceled` per watch when the
 server's refusal of a range stream overlaps the client's cancel) and the regenerated fact that `watcher.Cancel` forgets a watch in
 the critical section in which it found it registered (KB.OrderC05, audited by C05, C13 and C16). All 12 are caught now.
+Round 10 (`Q01..Q06`, per component, with an ADVERSARIAL brief: the seeders were told what kind of verifier watches the code - random
+and stepped histories against a reference model on three engines, fault injection at the storage boundary, restarts, real election,
+regenerated source facts, race detector - and asked for changes it is most likely to miss; 4 of 12 missed at first) -> the repair's
+read failing with a SECOND unresolved write queued behind the head and a compaction request (the queue's order is what caps
+compaction; C09); a page of a few 1 MiB objects (C03); two shape facts of the TiKV adapter (KB.OrderC11): the conflict re-run loop has
+exactly its three exits - an extra exit on a cancelled context would report a failed condition nobody evaluated - and `Iter` uses the
+snapshot as client-go hands it out (snapshot isolation; read-committed would let an acknowledged write be missing from a scan while
+the commit of its secondary keys in another region is on its way). Both of these need events INSIDE one engine call, which the
+harness cannot place: the facts are the tie, no failing input is found for them.
 The table is regenerated from the `result.json` files.
 
 """
